@@ -18,7 +18,7 @@
 EXTENDS Integers, Sequences, FiniteSets, TLC, Json, CSV, IOUtils, Bitwise
 CONSTANTS Geoms,      \* set of geometry records (MCConsole)
           Args,       \* 32-bit words <<hi, lo>> used for x, y, w, h, n
-          Chars, ColPairs, FillCols, VgaCols,
+          Chars, ColPairs, FillCols, VgaCols, VgaFill,
           MaxOps, Bug, Emit
 
 C == INSTANCE Console WITH Devs <- {}
@@ -164,7 +164,7 @@ Init ==
 Cp == IF IsFb THEN ColPairs ELSE VgaCols
 Next == /\ mismatch = <<>> /\ nops < MaxOps
         /\ \/ \E ch \in Chars, cp \in Cp, x \in Args, y \in Args : DoWrite(ch, cp[1], cp[2], x, y)
-           \/ \E x \in Args, y \in Args, w \in Args, h \in Args, cp \in (IF IsFb THEN FillCols ELSE VgaCols) : DoFill(x, y, w, h, cp[1], cp[2])
+           \/ \E x \in Args, y \in Args, w \in Args, h \in Args, cp \in (IF IsFb THEN FillCols ELSE VgaFill) : DoFill(x, y, w, h, cp[1], cp[2])
            \/ \E dir \in {0, 1}, n \in Args : DoScroll(dir, n)
 
 NoMismatch == mismatch = <<>>
